@@ -209,6 +209,8 @@ def parseCase : P Case := do
   let cpar ← bool
   let sbSet ← listOf bytes
   let parSet ← listOf bytes
+  -- the authority section of the scripted upstream answer
+  let uns ← listOf rr
   let mode ← (do let s ← next; ofOpt (parseMode s))
   let bip4 ← ipOpt
   let bip6 ← ipOpt
@@ -250,7 +252,7 @@ def parseCase : P Case := do
               rewrites := C06.prepare rws, hosts := hosts, sbEnabled := sbEnabled, parentalEnabled := parEnabled,
               sbHost := sbHost, parentalHost := parHost },
     custom := custom, blockLists := bl, allowLists := al,
-    q := { name := qname, qtype := qtype }, up := { rcode := urcode, answer := uans },
+    q := { name := qname, qtype := qtype }, up := { rcode := urcode, answer := uans, ns := uns },
     oracles := oracles, svcOracle := svcO, arpa := arpa, sbSet := sbSet, parentalSet := parSet }
 
 /-! ## observation -/
